@@ -60,17 +60,29 @@ class QCircuitEnhanced(QCircuit):
         result: List[gates.AppliedGate] = []
         i = 0
         len_g = len(self.gates)  # type: ignore
+
+        def self_inverse(g):
+            # only a pair of self-inverse gates is an identity (T;T, S;S, P;P are not)
+            if isinstance(g, gates.QControlledGate):
+                g = g.gate
+            return isinstance(g, (gates.I, gates.X, gates.Y, gates.Z, gates.H, gates.Swap))
+
         while i < len_g:
-            if i < (len_g - 1) and self.gates[i] == self.gates[i + 1]:  # type: ignore
-                if isinstance(result[-1][0], gates.Barrier):
+            if (
+                i < (len_g - 1)
+                and self.gates[i] == self.gates[i + 1]  # type: ignore
+                and self_inverse(self.gates[i][0])  # type: ignore
+            ):
+                if len(result) > 0 and isinstance(result[-1][0], gates.Barrier):
                     result.pop()
                 i += 2
             elif (
                 i < (len_g - 2)
                 and self.gates[i] == self.gates[i + 2]  # type: ignore
                 and isinstance(self.gates[i + 1][0], gates.Barrier)  # type: ignore
+                and self_inverse(self.gates[i][0])  # type: ignore
             ):
-                if isinstance(result[-1][0], gates.Barrier):
+                if len(result) > 0 and isinstance(result[-1][0], gates.Barrier):
                     result.pop()
                 i += 3
             else:
